@@ -519,11 +519,14 @@ fn others_outcome(c: &OthersCase) -> Outcome {
             let s = sim.socket(kind, None);
             // an established healthy peer first (not for REQ: its lock-step rotation would
             // send the single probe request to that peer instead of the one we watch)
+            let mut pre: Option<(crate::sim::Link, Vec<u8>)> = None;
             if kind != Kind::Req {
-                let pre = simx::attach_raw(&mut sim, s, None).await;
-                if let Err(e) = pre {
-                    fail!(f, format!("C03/others/{}/setup", kind.name()), "{}", e);
-                    return f;
+                match simx::attach_raw(&mut sim, s, None).await {
+                    Ok(p) => pre = Some(p),
+                    Err(e) => {
+                        fail!(f, format!("C03/others/{}/setup", kind.name()), "{}", e);
+                        return f;
+                    }
                 }
             }
             let link = sim.link();
@@ -549,6 +552,13 @@ fn others_outcome(c: &OthersCase) -> Outcome {
             }
             // REQ's rotation may be parked on the (admitted) hostile peer: inherent to REQ
             let skip_send = kind == Kind::Req && admitted;
+            // the connection that was established BEFORE the hostile one still works ...
+            if let Some((pl, pid)) = &pre {
+                if let Err(e) = simx::roundtrip_on(&mut sim, s, pl, pid, b"established-before", false).await {
+                    fail!(f, format!("C03/others/{}/established-connection-stopped-working", kind.name()), "after hostile input on another connection ({:?} stage, admitted={}): {}", stage, admitted, e);
+                }
+            }
+            // ... and so does one that joins afterwards
             if let Err(e) = simx::healthy_roundtrip(&mut sim, s, b"healthy-after", skip_send).await {
                 fail!(f, format!("C03/others/{}/stopped-working", kind.name()), "after hostile input on one connection ({:?} stage, admitted={}): {}", stage, admitted, e);
             }
